@@ -224,8 +224,18 @@ func propC01Partition(c *Ctx, m *convergeModel) {
 	var spawn *ssa.Function
 	allInstrs(ld, func(in ssa.Instruction) {
 		if call, ok := in.(*ssa.Call); ok && strings.HasSuffix(calleeName(call), "errgroup.Group).Go") {
-			if x, ok := call.Call.Args[1].(*ssa.MakeClosure); ok {
+			switch x := call.Call.Args[1].(type) {
+			case *ssa.MakeClosure:
 				spawn = x.Fn.(*ssa.Function)
+			case *ssa.Call:
+				// eg.Go(fetch(m, n)): a constructor that returns the partition closure
+				if mk := regionCallee(x); mk != nil {
+					for _, r := range returnsOf(mk) {
+						if mc, ok := returnValues(r)[0].(*ssa.MakeClosure); ok {
+							spawn = mc.Fn.(*ssa.Function)
+						}
+					}
+				}
 			}
 		}
 	})
@@ -234,7 +244,8 @@ func propC01Partition(c *Ctx, m *convergeModel) {
 		return
 	}
 	var get ssa.CallInstruction
-	for _, ci := range callsIn(spawn) {
+	// in the closure itself or in a function only it calls (eg.Go(func() error { return get(p) }))
+	for _, ci := range NewRegion(spawn).Calls() {
 		if ci.Common().IsInvoke() && ci.Common().Method.Name() == "Get" {
 			get = ci
 		}
